@@ -22,6 +22,7 @@ from pfhedge.instruments import BaseDerivative
 from pfhedge.nn import EntropicRiskMeasure
 from pfhedge.nn import ExpectedShortfall
 from pfhedge.nn import Hedger
+from pfhedge.nn import IsoelasticLoss
 from pfhedge.nn import MultiLayerPerceptron
 
 from .. import contracts
@@ -44,7 +45,7 @@ ANCHORS = ['pfhedge.nn.modules.hedger:Hedger.fit',
            'pfhedge._utils.operations:ensemble_mean']
 DECIDING = ["trace.automaton", "reference.parameters", "reference.history", "steps.count"]
 REQUIRED_BRANCHES = ["criterion_with_parameters.optimizer_instance_over_hedger", "k=0", "k>=2", "validation.off", "n_times>1", "optimizer.class", "optimizer.instance", "model.lazy", "model.dropout", "stale_grad",
-                     "init_state.given", "verbose.on.validation.off", "second_fit.class", "second_fit.instance"]
+                     "init_state.given", "verbose.on.validation.off", "second_fit.class", "second_fit.instance", "optimizer.instance_on_lazy_model", "loss.non_finite"]
 
 _CTX = None
 _TRACE = []  # stack of active traces
@@ -198,7 +199,7 @@ def reference(hedger, derivative, hedge, k, n, m, opt_kind, s, v, opt=None):
     return (hist if v else None), opt
 
 
-def check_trace(ctx, tr, k, n, m, s, v, lazy_prefix, sig):
+def check_trace(ctx, tr, k, n, m, s, v, lazy_prefix, sig, lazy_first_forward=False):
     mon = "trace.automaton"
     ev = tr.events
     i = 0
@@ -231,7 +232,7 @@ def check_trace(ctx, tr, k, n, m, s, v, lazy_prefix, sig):
             for a, val in attrs.items():
                 if e.get(a) != val:
                     return fail(f"epoch {e_ + 1}: {kind}.{a} = {e.get(a)!r}, expected {val!r} at event {i}")
-            if e["pver_changed"] and kind != "STEP_END" and not (lazy_prefix and e_ == 0 and kind == "ZERO"):
+            if e["pver_changed"] and kind != "STEP_END" and not (lazy_prefix and e_ == 0 and kind == "ZERO") and not (lazy_first_forward and e_ == 0 and kind == "CRIT"):
                 return fail(f"epoch {e_ + 1}: parameters changed outside optimizer.step() (before event {i}: {kind})")
             if kind == "STEP_END" and not e["pver_changed"]:
                 return fail(f"epoch {e_ + 1}: optimizer.step() did not change any parameter")
@@ -274,6 +275,15 @@ def drv_fit(ctx, k_, rng):
             opt_kind = "adam_inst"
         ctx.branch("second_fit." + ("instance" if opt_kind.endswith("inst") else "class"))
         second = True
+    if k_ % 24 == 13:
+        n_h_ = 1 if hedge is None else len(hedge)
+        hedger = Hedger(MultiLayerPerceptron(out_features=n_h_, n_layers=2, n_units=5), list(hedger.inputs.features), criterion=hedger.criterion)
+        mk, opt_kind, k = "lazy", "sgd_inst", max(k, 1)
+    if k_ % 24 == 17:
+        # deterministic coverage: a training loss that is not finite (isoelastic utility of a hedging P&L that goes negative): the protocol is the
+        # same - backward and step every epoch, one history entry per epoch
+        hedger.criterion = IsoelasticLoss(0.5)
+        k = max(k, 2)
     lazy = mk == "lazy"
     ctx.branch("k=0" if k == 0 else ("k>=2" if k >= 2 else "k=1"))
     if not v:
@@ -289,11 +299,18 @@ def drv_fit(ctx, k_, rng):
         ctx.branch("init_state.given")
     if opt_kind == "sgd_inst" and any(True for _ in hedger.criterion.parameters()) and k > 0:
         ctx.branch("criterion_with_parameters.optimizer_instance_over_hedger")
+    lazy_inst = False
     if opt_kind.endswith("inst") and lazy:
-        derivative.simulate(n_paths=1)
-        with torch.no_grad():
-            hedger.compute_pl(derivative, hedge)  # the docs' placeholder forward before building an optimiser instance
-        lazy = False
+        if rng.random() < 0.5 or k_ % 24 == 13:
+            # the optimiser instance is built on the still-uninitialised parameters (torch materialises them in place at the first forward):
+            # fit() then performs exactly the epochs, with no placeholder simulation of its own
+            lazy_inst = True
+            ctx.branch("optimizer.instance_on_lazy_model")
+        else:
+            derivative.simulate(n_paths=1)
+            with torch.no_grad():
+                hedger.compute_pl(derivative, hedge)  # the docs' placeholder forward before building an optimiser instance
+            lazy = False
     ref = copy.deepcopy(hedger)
     stale = (not lazy) and rng.random() < 0.4
     if stale:
@@ -334,7 +351,7 @@ def drv_fit(ctx, k_, rng):
             _TRACE.pop()
             hp.remove()
             hq.remove()
-        check_trace(ctx, tr, kc, n, m, s, v, lazy and ci == 0 and not opt_kind.endswith("inst"), sig)
+        check_trace(ctx, tr, kc, n, m, s, v, lazy and ci == 0 and not opt_kind.endswith("inst"), sig, lazy_first_forward=(lazy_inst and ci == 0))
         mon = "steps.count"
         ctx.seen(mon)
         steps = sum(1 for e in tr.events if e["kind"] == "STEP_END")
@@ -345,7 +362,9 @@ def drv_fit(ctx, k_, rng):
         mon = "reference.parameters"
         ctx.seen(mon)
         pa, pb = list(hedger.parameters()), list(ref.parameters())
-        same = len(pa) == len(pb) and all(a.shape == b.shape and torch.equal(a, b) for a, b in zip(pa, pb))
+        same = len(pa) == len(pb) and all(a.shape == b.shape and bool(((a == b) | (torch.isnan(a) & torch.isnan(b))).all()) for a, b in zip(pa, pb))
+        if any(bool(torch.isnan(a).any()) for a in pa) or (isinstance(hist, list) and any(h_ != h_ for h_ in hist)):
+            ctx.branch("loss.non_finite")
         if not same:
             worst = max((float((a - b).abs().max()) for a, b in zip(pa, pb) if a.shape == b.shape), default=float("nan"))
             ctx.violation(mon, "parameters_differ", f"parameters after fit() call #{ci + 1} differ from the explicit simulate/loss/backward/step loop under the same "
